@@ -400,7 +400,45 @@ func writeEvidence(spec *PropSpec, opts RunOpts, items []Item, results []*ItemRe
 	cov["shapes_per_harness"] = shapesBy
 	cov["queries"] = map[string]int{"sat": qs.Sat, "unsat": qs.Unsat, "unknown": qs.Unknown, "fallback_to_second_solver": qs.Fallback, "solver_errors": qs.Errors}
 	cov["solver_time_s"] = qs.TimeBy
-	cov["bounds"] = spec.Bounds(opts.Tier)
+	// bounds: the shape parameters enumerated by the driver (everything else is symbolic), per harness
+	type rngT struct{ lo, hi []int }
+	ranges := map[string]*rngT{}
+	for _, it := range items {
+		r := ranges[it.Func]
+		if r == nil {
+			r = &rngT{lo: append([]int(nil), it.Shape...), hi: append([]int(nil), it.Shape...)}
+			ranges[it.Func] = r
+			continue
+		}
+		for k, v := range it.Shape {
+			if k < len(r.lo) {
+				if v < r.lo[k] {
+					r.lo[k] = v
+				}
+				if v > r.hi[k] {
+					r.hi[k] = v
+				}
+			}
+		}
+	}
+	bounds := map[string]interface{}{}
+	for f, r := range ranges {
+		var parts []string
+		for k := range r.lo {
+			if r.lo[k] == r.hi[k] {
+				parts = append(parts, fmt.Sprintf("%d", r.lo[k]))
+			} else {
+				parts = append(parts, fmt.Sprintf("%d..%d", r.lo[k], r.hi[k]))
+			}
+		}
+		bounds[f] = fmt.Sprintf("%d shapes, shape parameters within (%s); all nondet inputs symbolic over their full type unless restricted by verifAssume in the harness", shapesBy[f], strings.Join(parts, ", "))
+	}
+	for k, v := range spec.Bounds(opts.Tier) {
+		bounds[k] = v
+	}
+	bounds["unwinding"] = fmt.Sprintf("at most %d visits per basic block and frame, %d instructions per path, %d paths per work item; exceeding any of them is reported INCONCLUSIVE", opts.MaxVisits, opts.MaxSteps, opts.MaxPaths)
+	bounds["solver_timeout_ms"] = opts.TimeoutMs
+	cov["bounds"] = bounds
 	cov["stubs"] = spec.Stubs
 	cov["outside_claim"] = spec.Outside
 	var kf []string
